@@ -83,12 +83,12 @@ theorem C18_number_cmp_refusal (p : Bool) (a b : Number α) :
   cases a <;> cases b <;> simp [numberEq, numberLt]
 
 /-- Mixing a float with a dual number never alters the value part: it is the float operation on the
-values (for + − × ÷; `f64 / Dual` computes `a · b^(−1)`, which is stated as such). -/
+values (for + − × ÷ in either position). -/
 theorem C18_mixed_values (f : α) (d : Dual α) :
     (Dual.addF d f).real = d.real + f ∧ (Dual.subF d f).real = d.real - f ∧
     (Dual.fSub f d).real = f - d.real ∧ (Dual.mulF d f).real = d.real * f ∧
     (Dual.divF d f).real = d.real / f ∧
-    (Dual.fDiv f d).real = Transc.powf d.real (-1) * f :=
+    (Dual.fDiv f d).real = f / d.real :=
   ⟨rfl, rfl, rfl, rfl, rfl, rfl⟩
 
 end Rateslib
